@@ -62,6 +62,12 @@ def gen(tier, rng):
     for t in C.token_strings(TINY, k):
         yield {"t": t}
         yield {"t": t, "d": 1}
+    # the same document handed over in two calls (parse_string(..., library=...)), cut between two blocks
+    parts = list(C.token_strings([x + "\n" for x in TINY if x != "junk\n"], 3))
+    for a in parts[1:]:
+        for b in parts[1:]:
+            if (len(a) + 3 * len(b)) % 7 == 0 or len(a) + len(b) < 40:
+                yield {"t": a + b, "cut": len(a)}
     n = 3000 if tier == "quick" else 30000
     made = 0
     while made < n:
@@ -75,6 +81,8 @@ def gen(tier, rng):
 
 
 def request(case):
+    if "cut" in case:
+        return None      # python-only: evaluated on the real code (impl raises when it fails)
     t = case["t"]
     if not lean_representable(t):
         return None
@@ -117,8 +125,46 @@ def _structure(blocks):
     return out
 
 
+def _cont_check(case):
+    """a document parsed in two calls - parse_string(first part), then parse_string(second part, library=that library) - holds
+    the duplicates of the document parsed in one call: the first block with a key is live, every later one is a wrapper
+    exposing that first, live block (free-text comments, which may join across the cut, are left out of the comparison)"""
+    import bibtexparser
+    from bibtexparser import model as M
+
+    def sig(lib):
+        pos = {id(b): i for i, b in enumerate(lib.blocks)}
+        out = []
+        for b in lib.blocks:
+            if isinstance(b, M.ImplicitComment):
+                continue
+            if isinstance(b, M.DuplicateBlockKeyBlock):
+                p = b.previous_block
+                out.append(("dupkey", b.key, type(b.ignore_error_block).__name__,
+                            (type(p).__name__, p.key, p.raw) if id(p) in pos else "previous block is not a block of the library"))
+            elif isinstance(b, (M.Entry, M.String)):
+                out.append((type(b).__name__, b.key))
+            else:
+                out.append((type(b).__name__,))
+        return out
+
+    t, cut = case["t"], case["cut"]
+    for kw in ({"parse_stack": []}, {}):
+        one = bibtexparser.parse_string(t, **kw)
+        lib = bibtexparser.parse_string(t[:cut], **kw)
+        two = bibtexparser.parse_string(t[cut:], library=lib, **kw)
+        if sig(two) != sig(one):
+            return "parsed in two calls (cut at %d, %s): %r; parsed in one call: %r" % (cut, "parse_stack=[]" if kw else "default stack", sig(two), sig(one))
+    return None
+
+
 def impl(case):
     import bibtexparser
+    if "cut" in case:
+        f = _cont_check(case)
+        if f:
+            raise AssertionError(f)
+        return "(ok continuation)"
     if case.get("d"):
         lib2 = bibtexparser.parse_string(case["t"])
         res = C.ok(B.enc_blocks(lib2.blocks, prev=False))
@@ -141,6 +187,8 @@ def oracle(case):
     """the property statement on the real code, from the raw splitter output"""
     import bibtexparser
     from bibtexparser import model as M
+    if "cut" in case:
+        return _cont_check(case)
     text = case["t"]
     src = C.raw_split(text)                       # blocks before Library.add
     from bibtexparser.middlewares.parsestack import default_parse_stack
